@@ -48,7 +48,8 @@ def run(ctx):
         if not fn:
             continue
         og = ctx.og(fn)
-        fm = [b for b, t in fn.calls() if A.cname(t) == FETCH_MAX]
+        # fetch_max calls on other counters (the keyspace id counter) are not the seqno restore
+        fm = [b for b, t in fn.calls() if A.cname(t) == FETCH_MAX and not any(x.k == "field" and x.a[1] == "keyspace_id_counter" for x in A.walk(og.of_operand(t["args"][0])))]
         if not fm:
             ctx.ob(rule, fn, "restores-seqno", False, "no seqno.fetch_max in %s: sequence numbers handed out after reopen could be below recovered ones" % fid)
             continue
